@@ -111,7 +111,10 @@ def generate(rng, tier):
         k = rng.randint(1, 8) if mode != "chain" else rng.randint(3, 6)
         boxes = gen_set(rng, mode, k)
         sh = list(boxes); rng.shuffle(sh)
-        cases.append([line_of(boxes), line_of(sh)])
+        case = [line_of(boxes), line_of(sh)]
+        if i % 5 == 3:           # the same set, every box moved to this geometry after its vertex cache was generated elsewhere
+            case.append("ownc" + line_of(boxes)[3:])
+        cases.append(case)
     return cases
 
 
@@ -119,7 +122,7 @@ def reduce_line(line):
     t = line.split()
     n = int(t[1])
     for i in range(n):
-        yield " ".join(["own", str(n - 1)] + t[2:2 + 5 * i] + t[2 + 5 * (i + 1):])
+        yield " ".join([t[0], str(n - 1)] + t[2:2 + 5 * i] + t[2 + 5 * (i + 1):])
 
 
 def _bits(tok):
